@@ -410,3 +410,37 @@ pub fn mixed_batch<S: Sch>(cfg: &Cfg) -> Verdict {
     }
     Verdict::Hold
 }
+
+/// IPA opening of a hiding polynomial whose degree is below the supported degree: the masking polynomial must
+/// cover every coefficient slot of the argument (supported degree + 1 fresh draws, plus the masking commitment's
+/// own randomness), and every round message must depend on draws made by `open`.
+pub fn ipa_open_masking(cfg: &Cfg) -> Verdict {
+    let mut w = match build::<Ipa>(cfg) {
+        Ok(w) => w,
+        Err(v) => return v,
+    };
+    let d = w.ck.comm_key.len() - 1;
+    let rngs = |x: SF| -> std::collections::BTreeSet<u32> { term_vars(x).into_iter().filter(|(_, k)| *k == 2).map(|(v, _)| v).collect() };
+    let commit_draws: std::collections::BTreeSet<u32> = terms_of(&w.states[0]).iter().flat_map(|t| rngs(*t)).collect();
+    let before = rng_draws();
+    let mut sp = sponge(cfg, 1);
+    let proof = match w.open(&[0], 0, &mut sp) {
+        Ok(p) => p,
+        Err(e) => return Verdict::viol(&format!("open-err:{}", e), e.clone()),
+    };
+    let drawn = rng_draws() - before;
+    if drawn < d + 2 {
+        return Verdict::viol("open-masking-too-short", format!("open drew {} random scalars for a hiding opening under supported degree {} (needs {} for the masking polynomial and 1 for its commitment)", drawn, d, d + 1));
+    }
+    if proof.hiding_comm.is_none() || proof.rand.is_none() {
+        return Verdict::viol("open-unmasked", "hiding opening without masking commitment / randomness");
+    }
+    for (i, (l, r)) in proof.l_vec.iter().zip(proof.r_vec.iter()).enumerate() {
+        for (name, x) in [("L", l.0), ("R", r.0)] {
+            if rngs(x).difference(&commit_draws).next().is_none() {
+                return Verdict::viol("round-unmasked", format!("round message {}_{} of a hiding opening depends on no random draw made by open", name, i));
+            }
+        }
+    }
+    Verdict::Hold
+}
